@@ -37,9 +37,19 @@ def view(index: RepoIndex, func: Func, cross: Tuple[str, ...] = (),
                                      cross=set(cross))
     node = canon_calls(index, func.module, node)
     node = splice_star_args(node)
+    node = unpack_known_tuples(node)
+    node = scalar_replace_records(index, node)
     ex = inline_pure_exprs(index, func.module, func.cls, node, keep=tuple(keep))
     if ast.dump(ex) != ast.dump(node):
         node = ex
+    # one-expression methods the pinned tree did not have (`agent.pov_area(area)`) are the
+    # expression they stand for
+    from .inline import inline_methods_by_name
+    ex = inline_methods_by_name(index, node, exclude=tuple(VOCABULARY) + tuple(keep),
+                                new_only=True)
+    if ast.dump(ex) != ast.dump(node):
+        node = ast.fix_missing_locations(ex)
+    node = project_agent_fields(index, node)
     out = (node, walk_function(node), inlined)
     _CACHE[key] = out
     return out
@@ -97,6 +107,176 @@ def splice_star_args(fn: ast.FunctionDef) -> ast.FunctionDef:
                 else:
                     out.append(a)
             n.args = out
+    return ast.fix_missing_locations(new)
+
+
+def _store_counts(fn: ast.FunctionDef) -> dict:
+    stores: dict = {}
+    for n in ast.walk(fn):
+        if isinstance(n, ast.Name) and isinstance(n.ctx, (ast.Store, ast.Del)):
+            stores[n.id] = stores.get(n.id, 0) + 1
+    return stores
+
+
+def unpack_known_tuples(fn: ast.FunctionDef) -> ast.FunctionDef:
+    """`t = (a, b); x, y = t` with `t` bound once to a display of names bound at most once is
+    `x = a; y = b` (a helper that returned a pair, read through)"""
+    import copy
+    stores = _store_counts(fn)
+    displays = {}
+    for n in ast.walk(fn):
+        if isinstance(n, ast.Assign) and len(n.targets) == 1 and \
+                isinstance(n.targets[0], ast.Name) and isinstance(n.value, ast.Tuple) and \
+                stores.get(n.targets[0].id) == 1 and \
+                all(isinstance(x, ast.Name) and stores.get(x.id, 0) <= 1 for x in n.value.elts):
+            displays[n.targets[0].id] = n.value
+    hits = [n for n in ast.walk(fn) if isinstance(n, ast.Assign) and len(n.targets) == 1
+            and isinstance(n.targets[0], ast.Tuple) and isinstance(n.value, ast.Name)
+            and n.value.id in displays
+            and len(n.targets[0].elts) == len(displays[n.value.id].elts)
+            and all(isinstance(t, ast.Name) for t in n.targets[0].elts)]
+    if not hits:
+        return fn
+    new = copy.deepcopy(fn)
+    for parent in ast.walk(new):
+        for field in ('body', 'orelse', 'finalbody'):
+            blk = getattr(parent, field, None)
+            if not (isinstance(blk, list) and blk and isinstance(blk[0], ast.stmt)):
+                continue
+            out = []
+            for st in blk:
+                if isinstance(st, ast.Assign) and len(st.targets) == 1 and \
+                        isinstance(st.targets[0], ast.Tuple) and isinstance(st.value, ast.Name) \
+                        and st.value.id in displays and \
+                        len(st.targets[0].elts) == len(displays[st.value.id].elts) and \
+                        all(isinstance(t, ast.Name) for t in st.targets[0].elts):
+                    for t, v in zip(st.targets[0].elts, displays[st.value.id].elts):
+                        out.append(ast.copy_location(
+                            ast.Assign([ast.Name(t.id, ast.Store())],
+                                       ast.Name(v.id, ast.Load())), st))
+                else:
+                    out.append(st)
+            setattr(parent, field, out)
+    return ast.fix_missing_locations(new)
+
+
+def scalar_replace_records(index: RepoIndex, fn: ast.FunctionDef) -> ast.FunctionDef:
+    """`o = Observation(g, a)` (a plain dataclass record of the package, arguments names bound
+    at most once), `o` bound once: `o.grid` is `g`, `o.agent` is `a`, and a bare `o` is the
+    constructor call again -- the record is only a pair of names for the rules"""
+    import copy
+    stores = _store_counts(fn)
+    recs = {}
+    for n in ast.walk(fn):
+        if isinstance(n, ast.Assign) and len(n.targets) == 1 and \
+                isinstance(n.targets[0], ast.Name) and stores.get(n.targets[0].id) == 1 and \
+                isinstance(n.value, ast.Call) and isinstance(n.value.func, ast.Name) and \
+                n.value.func.id in ('Observation', 'State'):
+            c = index.find_class(n.value.func.id)
+            if c is None or '__init__' in c.methods or '__post_init__' in c.methods:
+                continue
+            fields_ = [s_.target.id for s_ in c.node.body
+                       if isinstance(s_, ast.AnnAssign) and isinstance(s_.target, ast.Name)]
+            if len(n.value.args) > len(fields_) or \
+                    any(isinstance(a, ast.Starred) for a in n.value.args) or \
+                    any(k.arg is None for k in n.value.keywords):
+                continue
+            mp = dict(zip(fields_, n.value.args))
+            mp.update({k.arg: k.value for k in n.value.keywords})
+            if set(mp) == set(fields_) and all(
+                    isinstance(v, ast.Name) and stores.get(v.id, 0) <= 1 for v in mp.values()):
+                recs[n.targets[0].id] = (mp, n.value)
+    params = {a.arg for a in fn.args.posonlyargs + fn.args.args + fn.args.kwonlyargs}
+    recs = {k: v for k, v in recs.items() if k not in params}
+    if not recs:
+        return fn
+
+    class R(ast.NodeTransformer):
+        def visit_Attribute(self, n):
+            if isinstance(n.value, ast.Name) and n.value.id in recs and \
+                    n.attr in recs[n.value.id][0]:
+                v = recs[n.value.id][0][n.attr]
+                return ast.copy_location(ast.Name(v.id, n.ctx if isinstance(
+                    n.ctx, ast.Load) else ast.Load()), n)
+            self.generic_visit(n)
+            return n
+
+        def visit_Name(self, n):
+            if isinstance(n.ctx, ast.Load) and n.id in recs:
+                return ast.copy_location(copy.deepcopy(recs[n.id][1]), n)
+            return n
+    new = copy.deepcopy(fn)
+    new = R().visit(new)
+    return ast.fix_missing_locations(new)
+
+
+def project_agent_fields(index: RepoIndex, fn: ast.FunctionDef) -> ast.FunctionDef:
+    """`a = Agent(p, o, g)` bound once: `a.position` is `p`, `a.orientation` is `o`,
+    `a.grid_object` is `g` (when Agent's constructor still takes them in that order and its
+    properties read the transform it builds from them)"""
+    import copy
+    try:
+        ac = index.cls('gym_gridverse/agent.py', 'Agent')
+    except Exception:       # noqa: BLE001
+        return fn
+    init = ac.methods.get('__init__')
+    if init is None:
+        return fn
+    names = [a.arg for a in init.node.args.args[1:]]
+    if names[:2] != ['position', 'orientation']:
+        return fn
+    for pn in ('position', 'orientation'):
+        m = ac.methods.get(pn)
+        if m is None or not m.is_property():
+            return fn
+    stores = _store_counts(fn)
+    params = {a.arg for a in fn.args.posonlyargs + fn.args.args + fn.args.kwonlyargs}
+    ags = {}
+    once = {n.targets[0].id: n.value for n in ast.walk(fn)
+            if isinstance(n, ast.Assign) and len(n.targets) == 1
+            and isinstance(n.targets[0], ast.Name) and stores.get(n.targets[0].id) == 1
+            and n.targets[0].id not in params}
+    for n in ast.walk(fn):
+        if isinstance(n, ast.Assign) and len(n.targets) == 1 and \
+                isinstance(n.targets[0], ast.Name) and n.targets[0].id in once and \
+                isinstance(n.value, ast.Name):
+            # `x = y` with y itself bound once to the constructor call
+            v_ = n.value
+            for _ in range(4):
+                if isinstance(v_, ast.Name) and v_.id in once:
+                    v_ = once[v_.id]
+            if isinstance(v_, ast.Call) and isinstance(v_.func, ast.Name) and \
+                    v_.func.id == 'Agent':
+                n = ast.Assign(n.targets, v_)
+        if isinstance(n, ast.Assign) and len(n.targets) == 1 and \
+                isinstance(n.targets[0], ast.Name) and stores.get(n.targets[0].id) == 1 and \
+                n.targets[0].id not in params and isinstance(n.value, ast.Call) and \
+                isinstance(n.value.func, ast.Name) and n.value.func.id == 'Agent' and \
+                not any(isinstance(a, ast.Starred) for a in n.value.args) and \
+                not any(k.arg is None for k in n.value.keywords):
+            mp = dict(zip(names, n.value.args))
+            mp.update({k.arg: k.value for k in n.value.keywords})
+            if all(stores.get(x.id, 0) <= 1 or x.id in params for v in mp.values()
+                   for x in ast.walk(v) if isinstance(x, ast.Name)):
+                ags[n.targets[0].id] = mp
+    if not ags:
+        return fn
+    # the agent object must not be updated between its construction and the reads
+    for n in ast.walk(fn):
+        if isinstance(n, (ast.Assign, ast.AugAssign)):
+            for t in (n.targets if isinstance(n, ast.Assign) else [n.target]):
+                if isinstance(t, ast.Attribute) and isinstance(t.value, ast.Name) and \
+                        t.value.id in ags:
+                    ags.pop(t.value.id, None)
+
+    class R(ast.NodeTransformer):
+        def visit_Attribute(self, n):
+            if isinstance(n.value, ast.Name) and n.value.id in ags and \
+                    isinstance(n.ctx, ast.Load) and n.attr in ags[n.value.id]:
+                return ast.copy_location(copy.deepcopy(ags[n.value.id][n.attr]), n)
+            self.generic_visit(n)
+            return n
+    new = R().visit(copy.deepcopy(fn))
     return ast.fix_missing_locations(new)
 
 
